@@ -19,7 +19,7 @@ func init() {
 			"the hash partitioner consults its fallback only for nil keys, resets the hasher before writing, and requires consistency exactly for keyed messages (C17.consistent); no partitioner is installed as its own fallback and every option constructor uses its argument (C17.no-self); " +
 			"the producer offers all partitions to consistency-requiring choices and writable ones otherwise, refuses when there are none, range-checks the choice before indexing and fails the message on error (C17.producer, with C04.partition-once). " +
 			"NOT covered: equality of the hash with the Java client's, uniformity of random/round-robin.",
-		Rules: []func(*Ctx){c17Range, c17Consistent, c17NoSelf, c17Producer, c04PartitionOnce, c15ReadSets},
+		Rules: []func(*Ctx){c17Range, c17Consistent, c17NoSelf, c17Producer, c17OwnHasher, c04PartitionOnce, c15ReadSets},
 	})
 }
 
@@ -290,4 +290,37 @@ func c17Producer(c *Ctx) {
 	_ = types.Typ
 	_ = sort.Strings
 	_ = strings.Join
+}
+
+// C17.own-hasher: a hash.Hash32 is stateful (Reset / Write / Sum32); every hash partitioner must own its instance.
+func c17OwnHasher(c *Ctx) {
+	p := c.P
+	rule := "C17.own-hasher"
+	c.Doc(rule, "every store to hashPartitioner.hasher stores the result of a call made in the same function activation that builds (or configures) that partitioner — a new hasher per partitioner — never a value captured from an enclosing function or loaded from shared state: partitioners of different topics run in different goroutines, and a shared hasher mixes their Reset/Write/Sum32 sequences (equal keys no longer map to equal partitions)")
+	c.Floor(rule, 5)
+	for _, fn := range p.Fns {
+		if rootOf(fn).Pkg != p.Sarama {
+			continue
+		}
+		for _, s := range Info(fn).Find(StoreTo(nil, "hashPartitioner.hasher")) {
+			st, ok := s.In.(*ssa.Store)
+			if !ok || st.Parent() != fn {
+				continue
+			}
+			v := st.Val
+			for {
+				switch x := v.(type) {
+				case *ssa.MakeInterface:
+					v = x.X
+					continue
+				case *ssa.ChangeInterface:
+					v = x.X
+					continue
+				}
+				break
+			}
+			cl, isCall := v.(*ssa.Call)
+			c.Check(isCall && cl.Parent() == fn, rule, fn, "fresh-hasher", st, "the hasher stored is created by a call in the same function activation", "hashPartitioner.hasher is given a value that is not created for this partitioner ("+describe(st.Val)+"): one hasher instance is shared by the partitioners of several topics, whose goroutines interleave Reset/Write/Sum32 — the same key is sent to different partitions", nil)
+		}
+	}
 }
